@@ -2,11 +2,12 @@
 # tools/sensitivity.sh <property> <patch.diff> [runs]  -> prints DETECTED / MISSED
 pid=$1; patch=$2; runs=${3:-}
 name=$(basename "$patch" .diff | cut -c1-24)
+[ "$name" = patch ] && name=$(basename "$(dirname "$patch")")
 args="--no-evidence --max-classes 2"
 [ -n "$runs" ] && args="$args --runs $runs"
 out=$(tools/mutant.sh "sens-$pid-$name" "$patch" timeout 1500 ./check $pid $args 2>&1)
 if echo "$out" | grep -q "^VIOLATION property=$pid"; then
-  echo "DETECTED $pid $(basename $patch): $(echo "$out" | grep -m1 'minimised to' | cut -c1-160)"
+  echo "DETECTED $pid $name: $(echo "$out" | grep -m1 'minimised to' | cut -c1-160)"
 else
-  echo "MISSED   $pid $(basename $patch): $(echo "$out" | tail -3 | tr '\n' ' ' | cut -c1-300)"
+  echo "MISSED   $pid $name: $(echo "$out" | tail -3 | tr '\n' ' ' | cut -c1-300)"
 fi
